@@ -47,4 +47,20 @@ theorem C10_batch_is_leading_dim {K : Type} [Add K] [Sub K] [Mul K] [Div K] [Neg
     ((List.range rows.length).map fun t => expectedActual P m (parOfRow m.npars rows t)).length = rows.length := by
   simp
 
+/-- **Batched log-density = row-by-row**: row `t` of a batched `logpdf` (every gather through the flat index
+`t·npars + i`, main and constraint terms alike) is the unbatched log-density of `rows[t]` on the same data, term by term. -/
+theorem C10_batched_logpdf_eq_rows {K : Type} [Add K] [Sub K] [Mul K] [Div K] [Neg K] [OfNat K 0] [OfNat K 1]
+    [OfScientific K] [LT K] [LE K] [DecidableLT K] [DecidableLE K] [BEq K]
+    (P : Prim K) (L : LogPrim K) (s : Spec K) (st : Settings K) (m : Model K) (hbuild : buildModel P s st = .ok m)
+    (hreads : readsBelow m m.npars = true) (hcreads : constraintReadsBelow m m.npars = true)
+    (rows : List (List K)) (hrows : ∀ r ∈ rows, r.length = m.npars) (t : Nat) (ht : t < rows.length) (data : List K) :
+    logpdfTerms P m (parOfRow m.npars rows t) data = logpdfTerms P m (parOf (rows.getD t [])) data ∧
+    logpdfT P L m (parOfRow m.npars rows t) data = logpdfT P L m (parOf (rows.getD t [])) data := by
+  have h1 := C10_batched_expected_eq_rows P s st m hbuild hreads rows hrows t ht
+  have h2 := constraintTerms_congr m m.npars hcreads _ _ (fun k hk => parOfRow_eq m.npars rows hrows t ht k hk)
+  have : logpdfTerms P m (parOfRow m.npars rows t) data = logpdfTerms P m (parOf (rows.getD t [])) data := by
+    unfold logpdfTerms
+    simp only [h1, h2]
+  exact ⟨this, by unfold logpdfT; rw [this]⟩
+
 end Pyhf.Props.C10
